@@ -1521,6 +1521,83 @@ func ruleWalkCurrent(p *Prog, r *Report, fns []*ssa.Function) {
 			}
 		}
 	}
+	// (d) a helper of the indexed walker that is handed a segment record never resolves that segment's name on its own: the path
+	// walker is asked with a path the caller accumulated (a string parameter), not with the name field of one record
+	for _, fn := range fns {
+		if len(fn.Blocks) == 0 {
+			continue
+		}
+		hasKeys := false
+		for _, prm := range fn.Params {
+			if isSegListType(prm.Type()) {
+				hasKeys = true
+			}
+		}
+		if !hasKeys {
+			continue
+		}
+		eachInstr(fn, func(b *ssa.BasicBlock, in ssa.Instruction) {
+			c, ok := in.(*ssa.Call)
+			if !ok {
+				return
+			}
+			h := staticCallee(&c.Call)
+			if h == nil || h == fn || !p.InModule(h) || p.Exported(h) || len(h.Blocks) == 0 {
+				return
+			}
+			takesRecord := false
+			for _, a := range c.Call.Args {
+				t := a.Type()
+				if pt, isP := t.Underlying().(*types.Pointer); isP {
+					t = pt.Elem()
+				}
+				if _, isSt := t.Underlying().(*types.Struct); isSt && !isSegListType(a.Type()) {
+					takesRecord = true
+				}
+			}
+			if !takesRecord {
+				return
+			}
+			bad := ""
+			eachInstr(h, func(b2 *ssa.BasicBlock, i2 ssa.Instruction) {
+				c2, ok := i2.(*ssa.Call)
+				if !ok {
+					return
+				}
+				g := staticCallee(&c2.Call)
+				if g == nil || !p.InModule(g) || g == h {
+					return
+				}
+				for _, a := range c2.Call.Args {
+					if !isStringType(a.Type()) {
+						continue
+					}
+					sl := backwardSlice(h, a)
+					name, viaParam := false, false
+					for y := range sl {
+						if fa, isFA := y.(*ssa.FieldAddr); isFA && isStringType(derefType(fa.Type())) {
+							name = true
+						}
+						if fd, isF := y.(*ssa.Field); isF && isStringType(fd.Type()) {
+							name = true
+						}
+						if prm, isP := y.(*ssa.Parameter); isP && isStringType(prm.Type()) {
+							viaParam = true
+						}
+					}
+					if name && !viaParam {
+						bad = p.Pos(c2.Pos())
+					}
+				}
+			})
+			cons := "helper " + p.Name(h) + " resolves the accumulated path"
+			if bad != "" {
+				r.Bad(rule, p.Name(fn), cons, bad, "the helper asks the path walker for the name of the one segment it was handed ("+bad+") instead of the path accumulated since the last indexed step: a list reached through two or more plain segments resolves to nothing")
+			} else {
+				r.OK(rule, p.Name(fn), cons, p.Pos(c.Pos()), "no module query in the helper is made with a segment record's name alone")
+			}
+		})
+	}
 	if n == 0 {
 		r.Unknown(rule, "mxj.valuesForArray", "loop-carried node", "-", "no indexed walker with a loop-carried node found")
 	}
